@@ -38,6 +38,8 @@ type Case struct {
 	// alike; every tolerance is relative to the scaled case's own extent, so an absolute epsilon in the
 	// code under test (|area| < 1e-10 is zero, segments shorter than 1e-9 are skipped) fails here.
 	K int `json:"k"`
+	// Edits (op "edited"): the geometry is edited in place between calls (edit_test.go).
+	Edits []string `json:"edits,omitempty"`
 	// Alias (op "aliased"): a value whose members share memory with each other (alias_test.go).
 	Alias *AliasSpec `json:"alias,omitempty"`
 	// Spec (op "large"): a rung of the size ladder, rebuilt procedurally (large_test.go).
@@ -595,6 +597,12 @@ func inDomain(c Case) bool {
 }
 
 func checkCase(c Case) error {
+	if c.Op == "edited" {
+		if c.G.V == nil || !inDomain(c) {
+			return nil
+		}
+		return checkEdited(c)
+	}
 	if c.Op == "aliased" {
 		if c.Alias == nil {
 			return fmt.Errorf("harness: aliased case without a spec")
